@@ -1153,7 +1153,7 @@ fn cmd_run(o: &Opts) -> i32 {
                     continue;
                 }
                 let seed = derive(o.seed, "C15-contended", i as u64);
-                cells.push(gen::c15_contended(&ctx, tag, stt, if i % 2 == 0 { 600 } else { 1500 }, subset.clone(), seed));
+                cells.push(gen::c15_contended(&ctx, tag, stt, if i % 2 == 0 { 2000 } else { 4000 }, subset.clone(), seed));
             }
             n_contended = cells.len();
             collect(&mut st, &mut found, &cells);
